@@ -10,6 +10,11 @@ package config
 //@ pred boolDefaulted(q, def) := q != nil && fresh(q) && *q == def
 //@ pred boolCells() := forall p: *bool :: old(allocated(p)) ==> *p == old(*p)
 
+//@ -- a configuration that went through SetDefaults: every switch is set
+//@ pred defaulted(c) := c.API.DeleteEnabled != nil && c.API.PushEnabled != nil && c.API.Blob.DeleteEnabled != nil && c.API.Referrer.Enabled != nil &&
+//@        c.Storage.ReadOnly != nil && c.Storage.GC.Untagged != nil && c.Storage.GC.EmptyRepo != nil && c.Storage.GC.ReferrersDangling != nil &&
+//@        c.Storage.GC.ReferrersWithSubj != nil
+
 //@ func boolDefault(cur *bool, def bool) (ret *bool)
 //@   props C19
 //@   ensures [set-kept] cur != nil ==> ret == cur
@@ -38,6 +43,7 @@ package config
 //@   ensures [gc-grace-period] (old(c.Storage.GC.GracePeriod) != 0 ==> c.Storage.GC.GracePeriod == old(c.Storage.GC.GracePeriod)) && (old(c.Storage.GC.GracePeriod) == 0 ==> c.Storage.GC.GracePeriod == 3600000000000)
 //@   ensures [repo-upload-max] (old(c.Storage.GC.RepoUploadMax) != 0 ==> c.Storage.GC.RepoUploadMax == old(c.Storage.GC.RepoUploadMax)) && (old(c.Storage.GC.RepoUploadMax) == 0 ==> c.Storage.GC.RepoUploadMax == 1000)
 //@   ensures [root-dir] (old(c.Storage.StoreType) == 2 && old(c.Storage.RootDir) == "" ==> c.Storage.RootDir == ".") && (!(old(c.Storage.StoreType) == 2 && old(c.Storage.RootDir) == "") ==> c.Storage.RootDir == old(c.Storage.RootDir))
+//@   ensures [all-switches-set] defaulted(c)
 //@   ensures [others-unchanged] c.Storage.StoreType == old(c.Storage.StoreType) && c.HTTP == old(c.HTTP) && c.Log == old(c.Log) && c.API.RateLimit == old(c.API.RateLimit) && c.API.Warnings == old(c.API.Warnings)
 
 //@ func (s *Store) UnmarshalText(b []byte) (err error)
